@@ -1532,7 +1532,7 @@ package decimal128
 // ASCII digits, no leading and no trailing zero, sign copied, exponent within the format's range
 // plus the stripped zeros. (That the digits denote the coefficient is not part of this contract.)
 //@ func Decimal.digits
-//@ uses rssteps=1,2 rsmono=0
+//@ uses rssteps=1,2 rsmono=0 timeout=150
 //@ logical V real
 //@ requires !special(d) && V >= 0 && rs(V, bexp(d)) == coef(d)
 //@ ensures digs.neg == sign(d) && 0 <= digs.ndig && digs.ndig <= 39 && (coef(d) == 0 ==> digs.ndig == 0 && digs.exp == 0) && (coef(d) != 0 ==> digs.ndig >= 1)
